@@ -19,6 +19,15 @@ func (r *rng) next() uint64 {
 	z = (z ^ (z >> 27)) * 0x94d049bb133111eb
 	return z ^ (z >> 31)
 }
+// newRng derives an independent stream per seed (the state is scrambled, not offset: consecutive
+// seeds must not yield shifted copies of one stream).
+func newRng(seed uint64) *rng {
+	r := &rng{s: (seed + 1) * 0xD1342543DE82EF95}
+	a := r.next()
+	b := r.next()
+	return &rng{s: a ^ (b << 1) ^ (seed * 0x2545F4914F6CDD1D)}
+}
+
 func (r *rng) intn(n int) int {
 	if n <= 0 {
 		return 0
@@ -195,7 +204,7 @@ func genCmd(args []string) {
 	fs.Parse(args)
 	w := bufio.NewWriterSize(os.Stdout, 1<<20)
 	defer w.Flush()
-	g := &gen{w: w, r: &rng{s: *seed*0x9e3779b97f4a7c15 + 12345}, tier: *tier, pfx: *prop + "_"}
+	g := &gen{w: w, r: newRng(*seed), tier: *tier, pfx: *prop + "_"}
 	if f, ok := generators[*prop]; ok {
 		f(g)
 		return
